@@ -25,25 +25,22 @@ pub fn derive_has_stack(
     stacks_to_derive_for
         .into_iter()
         .map(|(ident, ty)| {
+            let element_ty = element_type(ty);
             quote! {
                 #[automatically_derived]
                 impl
-                    ::push::push_vm::stack::HasStack<
-                        <#ty as ::push::push_vm::stack::StackType>::Type
-                    >
+                    ::push::push_vm::stack::HasStack<#element_ty>
                 for
                     #struct_ident
                 {
                     fn stack<
-                        U: ::push::push_vm::stack::TypeEq<
-                            This = <#ty as ::push::push_vm::stack::StackType>::Type>
+                        U: ::push::push_vm::stack::TypeEq<This = #element_ty>
                     >(&self) -> &#ty {
                         &self.#ident
                     }
 
                     fn stack_mut<
-                        U: ::push::push_vm::stack::TypeEq<
-                            This = <#ty as ::push::push_vm::stack::StackType>::Type>
+                        U: ::push::push_vm::stack::TypeEq<This = #element_ty>
                     >(&mut self) -> &mut #ty {
                         &mut self.#ident
                     }
@@ -51,4 +48,27 @@ pub fn derive_has_stack(
             }
         })
         .collect::<proc_macro2::TokenStream>()
+}
+
+/// The element type of a stack field.
+///
+/// If the field is written as `Stack<T>` we use `T` itself; coherence does not
+/// normalize projections through a foreign trait, so in downstream crates two
+/// impls for `<Stack<A> as StackType>::Type` and `<Stack<B> as StackType>::Type`
+/// would be rejected as overlapping.
+fn element_type(ty: &syn::Type) -> TokenStream {
+    if let syn::Type::Path(type_path) = ty {
+        if let Some(segment) = type_path.path.segments.last() {
+            if segment.ident == "Stack" {
+                if let syn::PathArguments::AngleBracketed(arguments) = &segment.arguments {
+                    if let (1, Some(syn::GenericArgument::Type(element))) =
+                        (arguments.args.len(), arguments.args.first())
+                    {
+                        return quote! { #element };
+                    }
+                }
+            }
+        }
+    }
+    quote! { <#ty as ::push::push_vm::stack::StackType>::Type }
 }
